@@ -803,7 +803,8 @@ fn exec_worker_thr(case: &Sx, out_fail: &mut Vec<String>) -> Sx {
                     }
                     6 => {
                         if let Some(slot) = guards.get_mut(a.arg(0).num() as usize) {
-                            drop(slot.take());
+                            // odd guard indices: dropped by a frame that is unwinding from a panic
+                            if let Some(x) = slot.take() { crate::common::drop_placed(x, a.arg(0).num() % 2 == 1); }
                         }
                     }
                     8 => std::thread::sleep(Duration::from_micros(a.arg(0).num() as u64)),
@@ -907,7 +908,8 @@ fn exec_mutex(case: &Sx, out_fail: &mut Vec<String>) -> Sx {
                     }
                     6 => {
                         if let Some(slot) = guards.get_mut(a.arg(0).num() as usize) {
-                            drop(slot.take());
+                            // odd guard indices: dropped by a frame that is unwinding from a panic
+                            if let Some(x) = slot.take() { crate::common::drop_placed(x, a.arg(0).num() % 2 == 1); }
                         }
                     }
                     7 => closes.lock().unwrap().push(hd.clone().close()),
@@ -951,7 +953,7 @@ fn exec_mutex_seq(case: &Sx) -> Sx {
             }
             6 => {
                 if let Some(slot) = guards.get_mut(a.arg(0).num() as usize) {
-                    drop(slot.take());
+                    if let Some(x) = slot.take() { crate::common::drop_placed(x, a.arg(0).num() % 2 == 1); }
                 }
             }
             _ => closes.push(enc_agg(0, &test_metric(sink.clone()))),
